@@ -32,6 +32,10 @@ def cases(ctx):
             for part in range(ctx.pick(2, 8)):
                 out.append({'seed': ctx.seed * 100 + size + part * 7 + 1, 'size': size, 'kind': kind,
                             'programs': max(4, nrand // (2 if size > 100000 else 1) // ctx.pick(2, 8))})
+    # a large INCOMPRESSIBLE object: its deflate stream is longer than the decompresser's 512 KiB input chunk, so reads cross the
+    # internal chunk boundary (left-over inflated bytes, unconsumed tail) before backward seeks
+    out.append({'seed': ctx.seed * 100 + 991, 'size': 600000, 'kind': 'rnd', 'programs': ctx.pick(30, 300),
+                'forms': ['zipped', 'zipped+cache', 'bulk-zipped', 'bare', 'plain']})
     return out
 
 
